@@ -202,9 +202,10 @@ def run(ctx) -> list[Inst]:
             continue
         for m in c.methods.values():
             nm = m.name
-            if not (nm.startswith(('get_', 'is_', 'has_')) or '_exists_' in nm or nm in ('full_name',)):
+            serialiser = nm in ('_to_dict', 'to_dict', 'save_to_file') or nm.endswith('_to_dict')
+            if not (nm.startswith(('get_', 'is_', 'has_')) or '_exists_' in nm or nm in ('full_name',) or serialiser):
                 continue
-            if nm.startswith('_'):
+            if nm.startswith('_') and not serialiser:
                 continue
             facts = an.of(m)
             own = [e for e in facts.effects if e.path.root == ('param', m.self_name)]
